@@ -177,7 +177,7 @@ pub fn panic_msg(e: Box<dyn std::any::Any + Send>) -> String {
 
 /// Install once: silence the default panic printer (panics of the code under test are data).
 pub fn quiet_panics() {
-    std::panic::set_hook(Box::new(|_| {}));
+    std::panic::set_hook(Box::new(|i| { if std::env::var("MT_PANIC_TRACE").is_ok() { eprintln!("{}", i); } }));
 }
 
 pub type EdgeData<T> = Vec<(Option<T>, Vec<T>)>;
